@@ -98,7 +98,8 @@ def run_one(args):
     fired = {}
     for prop in props:
         mod = importlib.import_module("rules.%s" % prop)
-        run = report.Run(prop, "quick", facts, sdk=sdk if getattr(mod, "NEEDS_SDK", False) else None)
+        from rules import crosschecks as _cx
+        run = report.Run(prop, "quick", facts, sdk=sdk if (getattr(mod, "NEEDS_SDK", False) or prop in _cx.NEEDS_SDK) else None)
         for rule in mod.RULES:
             n = len(run.results)
             try:
@@ -109,6 +110,8 @@ def run_one(args):
                 run.missing(rule.__name__.split("_")[0], "rule-crashed", "%s: %s" % (type(e).__name__, e))
             if len(run.results) == n:
                 run.missing(rule.__name__.split("_")[0], "no-instances", "no instance")
+        from rules import crosschecks
+        crosschecks.apply(run, prop)
         keys = []
         for r in run.results:
             if r.status != "pass" and r.key not in keys:
